@@ -55,6 +55,9 @@ def apply_token_rules(toks, strips, where, log, body=True):
                     log.append({"rule": "R11", "where": where, "prefix": pre})
                     changed = True
                     break
+    # ---- R8: Arc is transparent (copy-on-write sharing is unobservable to a value-level contract) ----
+    if any(t.kind == "ident" and t.text == "Arc" for t in toks):
+        toks = apply_r8(toks, where, log, body)
     if not body:
         return toks
     # ---- macro rules R4 / R5 -----------------------------------------------------------
@@ -146,6 +149,158 @@ def apply_token_rules(toks, strips, where, log, body=True):
     return toks
 
 
+def _r8_arc_at(toks, si, k):
+    """si[k] is the ident `Arc` (optionally written `std::sync::Arc` / `sync::Arc`); returns the sig position where
+    the whole path starts, or None when `Arc` is the tail of some other path."""
+    start = k
+    for pre in (["std", "::", "sync", "::"], ["sync", "::"]):
+        L = len(pre)
+        if k - L >= 0 and [toks[si[m]].text for m in range(k - L, k)] == pre:
+            start = k - L
+            break
+    if start > 0 and toks[si[start - 1]].text == "::":
+        return None
+    return start
+
+
+def apply_r8(toks, where, log, body):
+    """R8: `Arc<T>` is replaced by `T`.  Copy-on-write sharing (`Arc::make_mut`) is unobservable to a
+    value-level contract: `Arc::make_mut(&mut E)` yields a unique `&mut` to (a private copy of) the value of E
+    and E owns that value afterwards, i.e. it behaves like `&mut E` on a plain field.
+      (a) type `Arc<T>`                              -> `T`
+      (b) `Arc::new(x)`                              -> `x`
+      (c) `let X = Arc::make_mut(&mut E);`           -> deleted, `X` replaced by `E` in the rest of the block
+      (d) `Arc::make_mut(&mut E)` as an expression   -> `E` when a field/method access follows, else `(&mut E)`
+    Every application is logged."""
+    toks = list(toks)
+    # ---- (c) let X = Arc::make_mut(&mut E);
+    while body:
+        si = _sig_indices(toks)
+        texts = [toks[i].text for i in si]
+        hit = None
+        for k in range(len(si)):
+            if texts[k] != "let" or toks[si[k]].kind != "ident":
+                continue
+            if k + 3 >= len(si) or toks[si[k + 1]].kind != "ident" or texts[k + 2] != "=":
+                continue
+            a = k + 3
+            # optional path prefix
+            while a < len(si) and texts[a] in ("std", "sync", "::") and texts[a] != "Arc":
+                a += 1
+            if a + 6 < len(si) and texts[a:a + 6] == ["Arc", "::", "make_mut", "(", "&", "mut"]:
+                close = rl.match_close(toks, si[a + 3])
+                kc = si.index(close)
+                if kc + 1 < len(si) and texts[kc + 1] == ";":
+                    hit = (k, a, kc)
+                    break
+        if hit is None:
+            break
+        k, a, kc = hit
+        var = texts[k + 1]
+        expr = rl.text_of(toks[si[a + 6]:si[kc - 1] + 1]).strip()
+        # rest of the enclosing block
+        end = len(toks)
+        depth = 0
+        for j in range(si[kc + 1] + 1, len(toks)):
+            t = toks[j]
+            if t.kind != "punct":
+                continue
+            if t.text in rl.OPEN:
+                depth += 1
+            elif t.text in rl.CLOSE:
+                depth -= 1
+                if depth < 0:
+                    end = j
+                    break
+        count = 0
+        depth = 0
+        kk = kc + 2
+        while kk < len(si) and si[kk] < end:
+            t = toks[si[kk]]
+            if t.kind == "punct" and t.text in rl.OPEN:
+                depth += 1
+            elif t.kind == "punct" and t.text in rl.CLOSE:
+                depth -= 1
+            elif t.kind == "ident" and t.text == var:
+                prev = texts[kk - 1]
+                prev2 = texts[kk - 2] if kk >= 2 else ""
+                nxt = texts[kk + 1] if kk + 1 < len(si) else ""
+                if prev == "let" or (prev == "mut" and prev2 == "let"):
+                    if depth == 0:
+                        break          # shadowed from here on
+                    raise ValueError("R8: `%s` is re-bound in a nested block of %s" % (var, where))
+                if prev not in (".", "::") and nxt != ":":
+                    toks[si[kk]] = rl.Tok("ident", expr, t.pos)
+                    count += 1
+            kk += 1
+        # delete the let statement (and the whitespace that follows it up to the end of line)
+        a0, b0 = si[k], si[kc + 1]
+        while b0 + 1 < len(toks) and toks[b0 + 1].kind == "ws" and "\n" not in toks[b0 + 1].text:
+            b0 += 1
+        del toks[a0:b0 + 1]
+        log.append({"rule": "R8", "where": where, "what": "let %s = Arc::make_mut(&mut %s); deleted" % (var, expr),
+                    "replaced": count})
+    # ---- (d) / (b) / (a)
+    changed = True
+    while changed:
+        changed = False
+        si = _sig_indices(toks)
+        texts = [toks[i].text for i in si]
+        for k in range(len(si)):
+            if texts[k] != "Arc" or toks[si[k]].kind != "ident":
+                continue
+            start = _r8_arc_at(toks, si, k)
+            if start is None:
+                continue
+            if body and texts[k + 1:k + 6] == ["::", "make_mut", "(", "&", "mut"]:
+                close = rl.match_close(toks, si[k + 3])
+                kc = si.index(close)
+                expr = rl.text_of(toks[si[k + 6]:si[kc - 1] + 1]).strip()
+                nxt = texts[kc + 1] if kc + 1 < len(si) else ""
+                rep = expr if nxt == "." else "(&mut %s)" % expr
+                toks[si[start]:close + 1] = [rl.Tok("ident", rep, toks[si[start]].pos)]
+                log.append({"rule": "R8", "where": where, "what": "Arc::make_mut(&mut %s) -> %s" % (expr, rep)})
+                changed = True
+                break
+            if body and texts[k + 1:k + 4] == ["::", "new", "("]:
+                close = rl.match_close(toks, si[k + 3])
+                kc = si.index(close)
+                inner = toks[si[k + 3] + 1:close]
+                expr = rl.text_of(inner).strip()
+                rep = expr if len(rl.sig(inner)) == 1 else "(%s)" % expr
+                toks[si[start]:close + 1] = [rl.Tok("ident", rep, toks[si[start]].pos)]
+                log.append({"rule": "R8", "where": where, "what": "Arc::new(%s) -> %s" % (expr, rep)})
+                changed = True
+                break
+            if k + 1 < len(si) and texts[k + 1] == "<":
+                depth = 0
+                m = k + 1
+                while m < len(si):
+                    tx = texts[m]
+                    if tx == "<":
+                        depth += 1
+                    elif tx == ">":
+                        depth -= 1
+                    elif tx == ">>":
+                        depth -= 2
+                    if depth <= 0:
+                        break
+                    m += 1
+                if m >= len(si):
+                    raise ValueError("R8: unbalanced `Arc<` in %s" % where)
+                if texts[m] == ">>":
+                    toks[si[m]] = rl.Tok("punct", ">", toks[si[m]].pos)
+                    del toks[si[start]:si[k + 1] + 1]
+                else:
+                    del toks[si[m]]
+                    del toks[si[start]:si[k + 1] + 1]
+                log.append({"rule": "R8", "where": where, "what": "Arc<T> -> T"})
+                changed = True
+                break
+    # inserted expressions become ordinary tokens again (hint anchors are matched token by token)
+    return rl.lex(rl.text_of(toks))
+
+
 def _prev_sig(out):
     for t in reversed(out):
         if t.kind not in ("ws", "comment", "doc"):
@@ -182,6 +337,10 @@ def make_fields_pub(text):
         return text
     close = rl.match_close(toks, b)
     out = []
+    # a private struct (`struct Inner<T> {..}` of mem_region.rs) becomes `pub` as well: Verus rejects field
+    # expressions of a non-visible datatype in the contract of a `pub fn`; visibility does not change meaning
+    if si and toks[si[0]].kind == "ident" and toks[si[0]].text in ("struct", "enum"):
+        out.append("pub ")
     depth = 0
     expect_field = True
     for i, t in enumerate(toks):
